@@ -27,7 +27,7 @@ def run_case(case) -> CaseResult:
     res = CaseResult()
     rng = random.Random(case['seed'])
     for i in range(case['n']):
-        run_history_case(rng, res, WANT, OPTS, name_mode=rng.random() < 0.2)      # (name mode: records live beside results named after configs)
+        run_history_case(rng, res, WANT, OPTS, feat={'meta_inheritance_p': 0.4}, name_mode=rng.random() < 0.2)      # (name mode: records live beside results named after configs)
         if len(res.violations) > 3:
             break
     return res
